@@ -314,8 +314,9 @@ def import_connection_target(
 
 def import_concat(pconc: vckt.Concat, module: Module) -> Concat:
     """Import a (potentially nested) Concatenation"""
+    # VLSIR concatenations are ordered most-significant part first; Hdl21's are least-significant first.
     parts = []
-    for ppart in pconc.parts:
+    for ppart in reversed(pconc.parts):
         part = import_connection_target(ppart, module)
         parts.append(part)
     return Concat(*parts)
